@@ -40,7 +40,8 @@ def main():
             SEEDED = os.path.join(VERIF, args.pop(0))
         else:
             ids.append(a)
-    ids = ids or sorted(d for d in os.listdir(SEEDED) if os.path.exists(os.path.join(SEEDED, d, "patch.diff")))
+    ids = ids or sorted((d for d in os.listdir(SEEDED) if os.path.exists(os.path.join(SEEDED, d, "patch.diff"))),
+                        key=lambda x: (int("".join(ch for ch in x.split("-")[0] if ch.isdigit()) or 0), x))
     if sh("git -C /repo status --porcelain").stdout.strip():
         print("ERROR: /repo has uncommitted changes; refusing to run")
         return 2
